@@ -24,7 +24,7 @@
 (***************************************************************************)
 EXTENDS Naturals, FiniteSets, Sequences, SequencesExt, TLC
 
-CONSTANTS Scenario, Protocol, SweepRecheck, ShareEnabled,
+CONSTANTS Scenario, Protocol, SweepRecheck, ShareEnabled, ShareMode,
           ReloadProtocol \* "snapshot": a reload replaces the whole configuration in one step AND an ingest works on the
                          \*             configuration it read when it started (what serialisability needs);
                          \* "atomic-swap": one-step reload, but every stage of an ingest reads the configuration in force;
@@ -183,12 +183,21 @@ WCovert(w) ==
   /\ UNCHANGED <<reg, tmo, ann, upd, shares, seen, todo, saw, crashed, cfg, snap>>
   /\ Obs(w, "covert")
 
+\* the registration is handed to the peer stations.  ShareMode = "detached": the request is made by a goroutine of its own and the worker
+\* goes on at once (what the code does: `go tryShareRegistrationOverAPI`);  "inline": the worker makes the request itself and waits for the
+\* peer's answer - which a stalled peer never gives (a deliberately broken instance: must violate Terminates)
 WShare(w) ==
   /\ pc[w] = "share"
   /\ shares' = [shares EXCEPT ![M(w).key] = @ + 1]
-  /\ pc' = [pc EXCEPT ![w] = "add"]
+  /\ pc' = [pc EXCEPT ![w] = IF ShareMode = "inline" /\ M(w).src = "detector" /\ ShareEnabled THEN "sharewait" ELSE "add"]
   /\ UNCHANGED <<reg, tmo, ann, upd, resolved, seen, todo, saw, crashed, cfg, snap>>
   /\ Obs(w, "share")
+\* the peer station answers the share request - or never does: this step is the ENVIRONMENT's and carries no fairness
+PeerAnswers(w) ==
+  /\ pc[w] = "sharewait"
+  /\ pc' = [pc EXCEPT ![w] = "add"]
+  /\ UNCHANGED <<reg, tmo, ann, upd, shares, resolved, seen, todo, saw, crashed, cfg, snap>>
+  /\ Obs(w, "peer")
 
 \* r.register(): track if unknown; first validation announces New
 WAdd(w) ==
@@ -256,12 +265,13 @@ RPhantom == /\ pc["R"] = "rphantom"
             /\ UNCHANGED <<reg, tmo, ann, upd, shares, resolved, seen, todo, saw, crashed, snap>>
             /\ Obs("R", "rphantom")
 
-Next == \/ \E w \in Workers : WValidate(w) \/ WExists(w) \/ WDupTrack(w) \/ WTrack(w) \/ WCovert(w) \/ WShare(w) \/ WAdd(w)
-        \/ (HasSweeper /\ (SCollect \/ SRemove))
-        \/ (HasHandler /\ (HCount \/ HLookup \/ HMark))
-        \/ (HasReload /\ (RCovert \/ RPhantom))
+StationNext == \/ \E w \in Workers : WValidate(w) \/ WExists(w) \/ WDupTrack(w) \/ WTrack(w) \/ WCovert(w) \/ WShare(w) \/ WAdd(w)
+               \/ (HasSweeper /\ (SCollect \/ SRemove))
+               \/ (HasHandler /\ (HCount \/ HLookup \/ HMark))
+               \/ (HasReload /\ (RCovert \/ RPhantom))
+Next == StationNext \/ \E w \in Workers : PeerAnswers(w)
 
-Spec == Init /\ [][Next]_vars /\ WF_vars(Next)
+Spec == Init /\ [][Next]_vars /\ WF_vars(StationNext)
 
 AllDone == \A p \in Procs : pc[p] = "done"
 
